@@ -7,7 +7,7 @@ import traceback
 def run(repo, outdir):
     import gen_opcode
     gens = {"OpcodeTable_gen.v": gen_opcode.generate}
-    for extra in ("gen_kernels", "gen_tables", "gen_opmap"):
+    for extra in ("gen_kernels", "gen_tables", "gen_opmap", "gen_stdlib"):
         try:
             mod = __import__(extra)
             gens.update(mod.generators())
